@@ -1030,6 +1030,9 @@ func callgrindName(names map[string]int, name string) string {
 	if name == "" {
 		return ""
 	}
+	// The callgrind format is line based and has no escaping: keep names on
+	// one line.
+	name = callgrindNameReplacer.Replace(name)
 	if id, ok := names[name]; ok {
 		return fmt.Sprintf("(%d)", id)
 	}
@@ -1037,6 +1040,8 @@ func callgrindName(names map[string]int, name string) string {
 	names[name] = id
 	return fmt.Sprintf("(%d) %s", id, name)
 }
+
+var callgrindNameReplacer = strings.NewReplacer("\n", `\n`, "\r", `\r`)
 
 // callgrindAddress implements the callgrind subposition compression scheme if
 // possible. If prevInfo != nil, it contains the previous address. The current
